@@ -84,6 +84,16 @@ def run(prop, tier, seed, replay):
                 reqs.append(f"{ci} randsizes {n} {c}")
                 expect.append((lens, rep))
                 data = np.concatenate(chunks)
+                # ---- the points of a pass ARE the generator's stream: chunk after chunk continues it (a fresh generator with the
+                #      same seed, asked for the same sequence of sizes, yields the same points)
+                gen_direct = BoxRandoms(*win, seed=sd, **kw)
+                gen_direct.reseed()
+                direct = np.concatenate([gen_direct(k_) for k_ in lens])
+                if direct.tobytes() != data.tobytes():
+                    dup = len(data) - len({(a, b) for a, b in zip(data["ra"].tolist(), data["dec"].tolist())})
+                    ck.add_violation(f"a pass of {n} random points in chunks of {c} is not the generator's stream for the same sequence of "
+                                     f"requests ({dup} of the {n} points are repeats of earlier ones)", rep)
+                    continue
                 # ---- window ------------------------------------------------------------------------
                 ra0, ra1, d0, d1 = (np.deg2rad(x) for x in win)
                 eps = 4e-16
